@@ -641,7 +641,6 @@ func constArgsOf(w *World, fi *FuncInfo, pi int) ([]string, bool) {
 	return vals, ok && len(vals) > 0
 }
 
-
 // localFieldDefs: what is stored into the field `name` of the local struct variable obj inside fd: right-hand sides of
 // `obj.name = e`, of `obj.name[i] = e`, and the field's value in a composite literal obj is defined from.
 func localFieldDefs(info *types.Info, fd *ast.FuncDecl, obj types.Object, name string) []ast.Expr {
